@@ -469,6 +469,8 @@ def contains(container, item):
                 continue
             acc = c if acc is False else wrap_bool(z3.Or(acc.e, c.e))
         return acc
+    if isinstance(container, (filter, map, zip)) or type(container).__name__ in ('dict_keys', 'dict_values', 'generator'):
+        return contains(list(container), item)
     if isinstance(container, (SSeq, bytes, bytearray)):
         cs = as_seq(container)
         if isinstance(item, (SSeq, bytes, bytearray)):
